@@ -106,6 +106,7 @@ def main():
     V.build_gatery()
     harness = V.build_harness("C06_retime")
     driver = V.build_model("C01", name="C01")
+    driver_mem = V.build_model("NM")          # netlists with memories (NetMemDefs.v, machine-generic checker MachineCert.v)
     if "--build-only" in sys.argv:
         sys.exit(0)
     res = V.check_properties(CID)
@@ -150,17 +151,26 @@ def main():
         for i in built:
             for v in ("hint", "ref"):
                 cmds.append(f"tie {out}/{i}.{v}.net {out}/{i}.{v}.trace")
-        lines = circ.run_driver(driver, cmds, str(WORK / "batch"))
-        strict = {l.split()[1].split(".")[0]: l for l in lines if l.startswith("CERT")}
+        # designs with a memory in the region go to the driver of the memory-netlist model
+        hasmem = {i for i in built if any(l.startswith("mem ") for l in prog[i])}
+        def split_run(cs, tag):
+            a = [c for c in cs if c.split()[2 if c.startswith("cert") else 1].split("/")[-1].split(".")[0] not in hasmem]
+            b = [c for c in cs if c not in a]
+            res = circ.run_driver(driver, a, str(WORK / tag)) if a else []
+            if b and driver_mem:
+                res += circ.run_driver(driver_mem, b, str(WORK / (tag + "m")))
+            return res
+        lines = split_run(cmds, "batch")
+        strict = {l.split()[1].split("/")[-1].split(".")[0]: l for l in lines if l.startswith("CERT")}
         again = [i for i in built if i in strict and " FAIL " in strict[i]]
         cmds2 = []
         for i in again:
             cmds2.append(f"cert refine {out}/{i}.ref.net {out}/{i}.hint.net {out}/{i}.ref.trace {budget}")
-        lines2 = circ.run_driver(driver, cmds2, str(WORK / "batch2")) if cmds2 else []
+        lines2 = split_run(cmds2, "batch2") if cmds2 else []
     else:
         strict, lines2 = {}, []
     t_cert = time.time() - t_cert
-    fwd = {l.split()[1].split(".")[0]: l for l in lines2 if l.startswith("CERT") and ".ref.net" in l.split()[1]}
+    fwd = {l.split()[1].split("/")[-1].split(".")[0]: l for l in lines2 if l.startswith("CERT") and ".ref.net" in l.split()[1]}
     tie_ok = sum(1 for l in lines if l.startswith("TIE") and " ok " in l)
     tie_bad = [l for l in lines if l.startswith("TIE") and "MISMATCH" in l]
     tie_uns = [l for l in lines if l.startswith("TIE") and ("UNSUPPORTED" in l or "BADORDER" in l)]
